@@ -326,7 +326,8 @@ theorem proj_giveUp (s : S) (reason : Exc) : projR (giveUp s reason) = disconnec
 theorem fr_tail (s1 : S) (c : Bool) :
     projR (if !s1.hasParser then .ok s1
       else if c then giveUp s1 .connectionDone
-      else disconnectParser { s1 with paused := false, quiet := s1.quiet + 1 } .connectionDone) =
+      else disconnectParser { s1 with paused := false, quiet := s1.quiet + 1,
+                                      disconnecting := s1.disconnecting || s1.qRaises } .connectionDone) =
     if !(proj s1).hasParser then .ok (proj s1) else disconnectParserK (proj s1) .connectionDone := by
   by_cases hp : (!s1.hasParser) = true
   · rw [if_pos hp, if_pos (show (!(proj s1).hasParser) = true from hp)]; rfl
